@@ -848,6 +848,39 @@ pub fn c02<T: Fx>(thorough: bool) -> Vec<CellDef> {
         }),
         move |k| f64case(f64::from_bits(k as u64)),
     ));
+    // "cut x tail" doubles: every exponent field the type can see (and a margin into saturation / subnormals) x every cut
+    // position of the 52-bit mantissa x 5 kept prefixes x every pattern of the 6 bits below the cut x low fill {0s, 1s}
+    {
+        let lim = (T::N as u64 - 2) * (1 << T::ES) + 8;
+        let exps: Vec<u64> = (1023 - lim..=1023 + lim).chain([0u64, 1, 2, 2046, 2045]).collect();
+        let ne = exps.len() as u64;
+        v.push(CellDef::new(
+            "C02",
+            format!("{}/from_f64#cuts", T::NAME),
+            Space::func(2 * ne * 52 * 5 * 64 * 2, format!("sign x {} exponent fields x 52 cut positions x 5 kept prefixes x every 6-bit tail below the cut x low fill", ne), move |i| {
+                let mut r = i;
+                let fill = r & 1;
+                r >>= 1;
+                let tail = r & 63;
+                r >>= 6;
+                let pi = r % 5;
+                r /= 5;
+                let c = r % 52; // kept mantissa bits
+                r /= 52;
+                let e = exps[(r % ne) as usize];
+                let sgn = r / ne;
+                let below = 52 - c;
+                let tb = below.min(6);
+                let rest = below - tb;
+                let full_c = if c == 0 { 0 } else { (1u64 << c) - 1 };
+                let prefix = match pi { 0 => 0, 1 => full_c, 2 => 0x5555_5555_5555_5555 & full_c, 3 => 0x1234_5678_9abc_def1 & full_c, _ => 0x0fed_cba9_8765_4321 & full_c };
+                let fillv = if fill == 1 && rest > 0 { (1u64 << rest) - 1 } else { 0 };
+                let man = (prefix << below) | ((tail & ((1 << tb) - 1)) << rest) | fillv;
+                ((sgn << 63) | (e << 52) | man) as u128
+            }),
+            move |k| f64case(f64::from_bits(k as u64)),
+        ));
+    }
     // tie plus one lone bit at every distance below the guard bit, at every scale (f64 and f32 sources)
     {
         let lim = (T::N as i32 - 2) * (1 << T::ES) + 2;
